@@ -299,6 +299,12 @@ func (b *bufferWriter) expectBody(r *http.Request) bool {
 }
 
 func (b *bufferWriter) Close() error {
+	// A response that was spilled to a temporary file is only removed by closing a reader obtained
+	// from the buffer. When none was taken (response over the limit, response kinds without a body,
+	// hijacked connection) take one here, otherwise the file stays behind.
+	if rdr, err := b.buffer.Reader(); err == nil {
+		_ = rdr.Close()
+	}
 	return b.buffer.Close()
 }
 
